@@ -3,6 +3,7 @@ package c03lib
 import (
 	"fmt"
 	"math/rand"
+	"strings"
 )
 
 var kindWeights = []struct {
@@ -34,6 +35,9 @@ var typicalMasks = []int{63, 63, 0b111100, 0b000011, 0b100000, 0b001101, 0b01010
 // arbitrary hook subsets, cache kind, suggestions on/off, direct or HTTP
 // driving, 2-7 steps of 1-3 concurrent requests (at most maxReqs requests).
 func GenSession(rng *rand.Rand, id string, maxReqs int) *Session {
+	if rng.Intn(10) == 0 {
+		return genCacheHistory(rng, id, maxReqs)
+	}
 	c := Config{ID: id, Rules0: []string{"FOCT"}, Exts: []HookSet{}}
 	for i, n := 0, rng.Intn(4); i < n; i++ {
 		m := 1 + rng.Intn(63)
@@ -109,4 +113,34 @@ func (s *Session) Classes() []string {
 		}
 	}
 	return out
+}
+
+// genCacheHistory is a sequential session that exercises the cache as a
+// history: an LRU of size 1-3 (or a map), few distinct query texts asked over
+// and over, so that hits, recency refreshes and evictions decide later
+// hit/miss outcomes.
+func genCacheHistory(rng *rand.Rand, id string, maxReqs int) *Session {
+	c := Config{ID: id, Rules0: []string{"FOCT"}, Exts: []HookSet{}, CK: "lru", CN: 1 + rng.Intn(3), Sugg: rng.Intn(2) == 0}
+	if rng.Intn(6) == 0 {
+		c.CK, c.CN = "map", 0
+	}
+	if rng.Intn(2) == 0 {
+		c.Exts = append(c.Exts, HookSetOf(pick(rng, typicalMasks)))
+	}
+	var texts []*Request
+	for i, n := 0, c.CN+1+rng.Intn(2); i < n; i++ {
+		k := "valid"
+		if rng.Intn(4) == 0 {
+			k = pick(rng, []string{"multi-operation", "unknown-field", "bad-variable", "operation-not-found"})
+		}
+		q := GenRequest(rng, k, nil, false)
+		q.Query += strings.Repeat(" ", i) // distinct cache keys
+		texts = append(texts, q)
+	}
+	s := &Session{Cfg: c}
+	for i := 0; i < maxReqs; i++ {
+		cp := *pick(rng, texts)
+		s.Steps = append(s.Steps, []*Request{&cp})
+	}
+	return s
 }
